@@ -74,6 +74,7 @@ func (t *taskState) unmarshalOp(i int, po *prepOp) {
 	} else {
 		out := reflect.New(po.ti.T)
 		err := p.Unmarshal(in, out.Interface())
+		t.noteValue(out.Elem(), err)
 		t.checkDecoded(i, po, out, err)
 		var twin reflect.Value
 		if t.x.prop == "C19" && po.ti.Twin != "" {
@@ -133,6 +134,7 @@ func (t *taskState) reuseDecode(i int, po *prepOp, in []byte) {
 		model.Elem().Set(world.Clone(tgt.Elem()))
 	}
 	err1 := p.Unmarshal(in, tgt.Interface())
+	t.noteValue(tgt.Elem(), err1)
 	in2 := append([]byte(nil), po.data...)
 	err2 := p.Unmarshal(in2, twin.Interface())
 	if errText(err1) != errText(err2) {
@@ -369,6 +371,9 @@ func (t *taskState) marshalAppendOp(i int, po *prepOp) {
 	backing := t.out[:cap(t.out)]
 	prefix := append([]byte(nil), t.out...)
 	res, err := p.Marshal(t.out, po.val.Addr().Interface())
+	if len(res) >= oldLen {
+		t.noteBytes(po.ti.T, res[oldLen:], err)
+	}
 	if e := errText(err); e != po.expErr && propRules[t.x.prop].solo {
 		t.fail(i, po, "error-mismatch", fmt.Sprintf("Marshal error %q, alone it is %q", e, po.expErr))
 		return
@@ -460,6 +465,9 @@ func (t *taskState) marshalTargetOp(i int, po *prepOp) {
 	}
 	pre := len(buf)
 	b, err := p.Marshal(buf, tgt.Interface())
+	if len(b) >= pre {
+		t.noteBytes(tgt.Type().Elem(), b[pre:], err)
+	}
 	t.probe("marshal_of_reused_value")
 	if errText(err) != eerr {
 		t.fail(i, po, "error-mismatch", fmt.Sprintf("Marshal of the re-used value gives error %q, a brand-new instance %q", errText(err), eerr))
